@@ -105,8 +105,37 @@ def gen_c01(r, n):
 def gen_c05(r, n):
     cases = []
     for i in range(n):
-        k = ["steplimit", "update", "steplimit", "update", "ifail"][i % 5]
-        if k == "ifail":
+        k = ["steplimit", "update", "propagate", "msc", "ifail", "propagate", "steplimit", "update"][i % 8]
+        if k == "propagate":
+            step0 = r.choice([10 ** r.uniform(-6, 3), 0.25, math.inf])
+            c = r.random()
+            base = step0 if math.isfinite(step0) else 1.0
+            if c < 0.35:
+                dist, boundary = base, True            # boundary exactly AT the limit
+            elif c < 0.55:
+                dist, boundary = base * r.random(), True
+            elif c < 0.65:
+                dist, boundary = math.nextafter(base, 0.0), True
+            elif c < 0.85:
+                dist, boundary = (step0 if math.isfinite(step0) else 3.0), False   # not limited by geometry
+            else:
+                dist, boundary = base * r.uniform(1e-6, 1.0), False   # bumped / propagation-limited
+            if not math.isfinite(step0) and not boundary:
+                dist = 10 ** r.uniform(-3, 3)
+            cases.append((k, dict(pclass=r.choice([1, 2, 5]), step0=step0, dist=dist, boundary=boundary,
+                                  can_loop=r.random() < 0.3)))
+        elif k == "msc":
+            seq = []
+            for _ in range(r.choice([2, 3, 5])):
+                phys = 10 ** r.uniform(-4, 1)
+                app = r.random() < 0.55
+                t = phys * r.uniform(0.05, 1.0)
+                g = t * r.uniform(0.3, 1.0)
+                seq.append((phys, app, t, g))
+            if all(a for _, a, _, _ in seq):
+                seq[-1] = (seq[-1][0], False, seq[-1][2], seq[-1][3])
+            cases.append((k, dict(seq=seq)))
+        elif k == "ifail":
             cases.append((k, dict(cutmode=1, gcut=2.0 ** -4, ecut=1.0, pcut=0.5, pid=r.choice([0, 0, 1, 2]),
                                   E=10 ** r.uniform(-1, 2), dep0=0.0, act=3, iE=0.0, idep=0.0, secs=[])))
         elif k == "steplimit":
@@ -156,6 +185,10 @@ def harness_line(k, c):
             c["act"], fx(c["iE"]), fx(c["idep"]), len(c["secs"]), " ".join("%d %s" % (p, fx(e)) for p, e in c["secs"]))
     if k == "tcut":
         return "tcut %d %s %s %s %d %s %s" % (c["cutmode"], fx(c["gcut"]), fx(c["ecut"]), fx(c["pcut"]), c["pid"], fx(c["E"]), fx(c["dep0"]))
+    if k == "propagate":
+        return "propagate %d %s %s %d %d" % (c["pclass"], fx(c["step0"]), fx(c["dist"]), int(c["boundary"]), int(c["can_loop"]))
+    if k == "msc":
+        return "msc %d %s" % (len(c["seq"]), " ".join("%s %d %s %s" % (fx(p_), int(a), fx(t), fx(g)) for p_, a, t, g in c["seq"]))
     if k == "steplimit":
         return "steplimit %s %d %d %s" % (fx(c["s0"]), c["c0"], len(c["seq"]), " ".join("%s %d" % (fx(s), a) for s, a in c["seq"]))
     if k == "update":
@@ -205,6 +238,10 @@ def model_expr(k, c, o):
         return "run_tcut %s %s %s %s" % (hexf(c["E"]), hexf(m), b(anti), hexf(c["dep0"]))
     if k == "ifail":
         return "run_ifail %s %s" % (b(VARIANT["fixed"]), hexf(o[5]))
+    if k == "propagate":
+        return "run_propagate %s %s %s %s" % (zlit(c["pclass"]), hexf(c["step0"]), hexf(c["dist"]), b(c["boundary"]))
+    if k == "msc":
+        return "run_msc [%s]" % "; ".join("(%s, %s, %s, %s)" % (hexf(p_), b(a), hexf(t), hexf(g)) for p_, a, t, g in c["seq"])
     if k == "steplimit":
         seq = "[" + "; ".join("(%s, %s)" % (hexf(s), zlit(a)) for s, a in c["seq"]) + "]"
         return "run_steplimit %s %s %s" % (hexf(c["s0"]), zlit(c["c0"]), seq)
@@ -232,6 +269,10 @@ def impl_view(k, c, o):
         return list(o[0:3])
     if k == "ifail":
         return [o[4], o[3]]
+    if k == "propagate":
+        return [o[0], o[1]]
+    if k == "msc":
+        return [[bool(o[3 * i]), o[3 * i + 1], o[3 * i + 2]] for i in range(len(c["seq"]))]
     if k == "steplimit":
         n = len(c["seq"])
         return [[bool(o[3 * i]), o[3 * i + 1], o[3 * i + 2]] for i in range(n)]
@@ -289,6 +330,18 @@ def oracle(k, c, o):
         w0 = c["E"] + (2 * m if anti else 0.0)
         if abs((o[1] - c["dep0"]) - w0) > 8 * M.EPS * (abs(o[1]) + abs(c["dep0"]) + w0) or o[0] != 0.0 or o[2] != 4:
             return "tracking cut: deposit grew by %r, expected E (+2mc^2) = %r; E'=%r status=%r" % (o[1] - c["dep0"], w0, o[0], o[2])
+    if k == "propagate":
+        if c["boundary"] and o[1] != 0:
+            return "propagator reported a boundary at distance %r (step limit %r) but the post-step action is not the boundary action" % (c["dist"], c["step0"])
+        if o[0] > c["step0"]:
+            return "propagation lengthened the step: %r -> %r" % (c["step0"], o[0])
+    if k == "msc":
+        for i, (phys, app, t, g) in enumerate(c["seq"]):
+            called, geo, fin = o[3 * i], o[3 * i + 1], o[3 * i + 2]
+            if not app and (called or fin != phys):
+                return "MSC not applicable on step %d (physics limit %r) but apply_step was called / step length became %r" % (i, phys, fin)
+            if fin > phys:
+                return "step %d longer than its pre-step limit after MSC: %r > %r" % (i, fin, phys)
     if k == "steplimit":
         cur = c["s0"]
         for i, (s, a) in enumerate(c["seq"]):
@@ -385,6 +438,6 @@ def unit_differential(ctx):
 
 def unit_differential_c05(ctx):
     exe = build_exe(ctx)
-    n = 500 if ctx.tier == "quick" else 10000
+    n = 640 if ctx.tier == "quick" else 12000
     cases = gen_c05(ctx.rng, n)
     return run_cases(ctx, exe, cases, PRE05, "unit05")
